@@ -237,11 +237,12 @@ func (s *Sim) plan(path string) *ReadPlan {
 // File wraps *os.File. Read/Seek/Close are scheduling points and apply the fault plan.
 type File struct {
 	*os.File
-	path   string
-	plan   *ReadPlan
-	off    int64 // bytes delivered through Read
-	failed bool
-	id     *Ident // virtual identity, captured at open
+	path       string
+	plan       *ReadPlan
+	off        int64 // bytes delivered through Read
+	failed     bool
+	id         *Ident // virtual identity, captured at open
+	emptyReads int
 }
 
 // Stat returns the handle's file info with the identity the file had when it was opened.
@@ -412,6 +413,15 @@ func (f *File) Read(b []byte) (int, error) {
 	if f == nil {
 		return 0, os.ErrInvalid // like (*os.File)(nil)
 	}
+	if len(b) == 0 {
+		// a caller that keeps asking for zero bytes makes no progress and never blocks: under the free-running legs that is a
+		// real busy loop which no fake-time limit can end. Ten thousand such calls in a row are reported as what they are
+		if f.emptyReads++; f.emptyReads > 10000 {
+			panic("simrt: " + f.path + ": Read was called 10000 times in a row with an empty buffer - the reader does not terminate")
+		}
+	} else {
+		f.emptyReads = 0
+	}
 	s := active.Load()
 	if s == nil || f.plan == nil {
 		n, err := f.File.Read(b)
@@ -493,6 +503,14 @@ func (r *ScriptReader) raw(b []byte) (int, error) {
 }
 
 func (r *ScriptReader) Read(b []byte) (int, error) {
+	if len(b) == 0 {
+		// see File.Read: a reader that keeps asking for zero bytes is a busy loop
+		if r.emptyReads++; r.emptyReads > 10000 {
+			panic("simrt: " + r.Name + ": Read was called 10000 times in a row with an empty buffer - the reader does not terminate")
+		}
+	} else {
+		r.emptyReads = 0
+	}
 	s := active.Load()
 	if s == nil {
 		return r.raw(b)
